@@ -213,15 +213,17 @@ class Driver:
         self.mgr.send_to_subscribers = tapped_send
         self.fan = None              # bookkeeping of the fine-grained report in progress (op_freport)
         self.cur_outs = []
-        _orig_get = self.mgr._get_subscriptions_for_action
+        _orig_get = getattr(self.mgr, '_get_subscriptions_for_action', None)
 
         def tapped_get(action):      # the receiver list of a fan-out, in the order of the delivery loop
             res = _orig_get(action)
-            if self.fan is not None and not self.fan['busy'] and self.fan['order'] is None:
+            if (self.fan is not None and not self.fan['busy'] and self.fan['order'] is None
+                    and isinstance(res, (list, tuple))):       # never consume a lazy result
                 self.fan['order'] = [self.k_of_sub(s) for s in res]
             return res
 
-        self.mgr._get_subscriptions_for_action = tapped_get
+        if _orig_get is not None:
+            self.mgr._get_subscriptions_for_action = tapped_get
 
     # ------------------------------------------------------------------ helpers
     def sec(self, v):
